@@ -118,10 +118,11 @@ class Program:
 
 
 class Machine:
-    def __init__(self, prog, fname, out_name, regions, args, env_calls=None, max_steps=400000, one_pass_label=None):
+    def __init__(self, prog, fname, out_name, regions, args, env_calls=None, max_steps=400000, back_edge_limit=None):
         """regions: name -> size in bytes (argument objects); args: register -> value
-        (int, Ptr).  one_pass_label: if given, a backward jump to this label is
-        not taken after the first traversal (per-round extraction, DESIGN 2.4)."""
+        (int, Ptr).  back_edge_limit: if given, backward conditional jumps are taken at most
+        that many times in total and fall through afterwards (per-round extraction, DESIGN 2.4:
+        the loops of the masked permutations are entered through their own back-edge test)."""
         self.p = prog
         self.fname = fname
         self.out = []
@@ -141,8 +142,9 @@ class Machine:
         self.max_steps = max_steps
         self.inputs = []      # (region, off, size, cname)
         self.stores = {}      # (region, off) -> size  (final write-back set)
-        self.one_pass_label = one_pass_label
+        self.back_edge_limit = back_edge_limit   # per-round extraction: number of times a backward conditional jump may be taken
         self.passes = 0
+        self.pc = 0
         self.calls = []
         self.out_name = out_name
         self.report = {"loads": 0, "stores": 0, "max_frame": 0, "steps": 0}
@@ -339,6 +341,7 @@ class Machine:
             if pc >= len(self.p.ins):
                 raise ExecError("fell off the end of the text")
             mn, ops, src = self.p.ins[pc]
+            self.pc = pc
             npc = pc + 1
             try:
                 r = self.step(mn, ops)
@@ -411,9 +414,9 @@ class Machine:
                     "je": a == b, "jz": a == b, "jne": a != b, "jnz": a != b,
                     "jb": b < a, "jae": b >= a, "ja": b > a, "jbe": b <= a}[mn]
             name, tgt = self.jump_target(ops[0])
-            if cond and self.one_pass_label == name:
+            if cond and self.back_edge_limit is not None and tgt <= self.pc:
                 self.passes += 1
-                if self.passes >= 1:
+                if self.passes > self.back_edge_limit:
                     return None      # per-round extraction: back-edge not taken again
             return tgt if cond else None
         if mn == "call":
